@@ -166,7 +166,7 @@ claim("C31", "model_checking", "TLA+ reference semantics of WebAssembly integer 
       "assembler and calls every case on the embedded wazero in compiler and interpreter mode and on V8 (node). A deviation from the specification that V8 does not share is a violation.",
       "Structured control flow is decided by WasmCtl.tla, an interpreter for block/loop/if-else/br/br_if/br_table/return over statement trees (branch depths valid by construction, every "
       "loop entry consumes fuel so every program terminates or traps): 11 442 programs x 3 arguments are functions of the same module, so every executor of the hub (wazero both modes, V8, "
-      "wat2c + clang, wat2x64 + gcc, wat2wasm and the printer) runs them. Trusted: TLC, BV.tla, node/V8 as the independent engine for attribution only. Integer subset; floats are not decided.",
+      "wat2c + clang, wat2x64 + gcc, wat2wasm and the printer) runs them. Trusted: TLC, BV.tla, node/V8 as the independent engine for attribution only. The trapping float-to-integer conversions are decided by WasmTrunc.tla (exact operands: sign, 72-bit magnitude, optional half, NaN, infinities, at the limits of each target type). Other floating-point instructions are not decided.",
       "DESIGN.md section 4 (WebAssembly hub)")
 
 claim("C02", "model_checking", "TLA+ WebAssembly numeric/memory semantics evaluated by TLC (WasmNum.tla) + native execution of every case through wat2x64 + gcc; TLA+ integer kernel (WaInt.tla) + native vs WebAssembly build of the same Wa programs",
